@@ -337,7 +337,7 @@ func (e *Exec) fromTerm(T types.Type, t *smt.Term, name string) Value {
 		}}
 	case *types.Struct:
 		sn := sortName(T)
-		s := &StructV{T: u, F: make([]Value, u.NumFields())}
+		s := &StructV{T: u, F: make([]Value, u.NumFields()), Origin: t}
 		s.lazy = func(i int) Value {
 			ft := u.Field(i).Type()
 			return e.fromTerm(ft, c.App(fmt.Sprintf("fld_%s_%s", sn, u.Field(i).Name()), sortOf(ft), t), name+"."+u.Field(i).Name())
